@@ -345,10 +345,6 @@ def h_closure_field(mode: int, t_old: int, t_new: int, rel_old: int, rel_new: in
     an = _attrs(t_new, p_null_n, null_n, p_len_n, len_n, p_idx_n, idx_n, p_uniq_n, uniq_n,
                 p_col_n, hx.pick(COLS, col_n) if p_col_n else None)
     if mode == 0:
-        if hx.kf('c05_retarget_relation') and t_old >= 4 and t_new >= 4 and rel_old != rel_new:
-            return hx.verdict(True, False)
-        if hx.kf('c05_retype_to_relation') and t_old != t_new and t_new >= 4:
-            return hx.verdict(True, False)
         if hx.kf('c05_retype_explicit_null_false') and t_old != t_new and p_null_n and not null_n:
             return hx.verdict(True, False)
     keep = FieldSignature('keep', models.IntegerField, {})
